@@ -7,10 +7,10 @@ META = dict(
     engine="coq+hx_core",
     technique="Coq proof (invariant over all interleavings of a small-step model of FileStorage::read) + multi-threaded stress of the real databases against a sequential baseline "
               "with forced contention through the cfg(agdb_verif) hook + replay of observed lock/read event logs by the extracted model (trace acceptor)",
-    level_text="Machine-checked, for every number of threads, every reader program per thread and EVERY schedule of the model's atomic actions (try_lock; seek and read_exact on the shared handle "
+    level_text="Machine-checked, for every number of threads, every reader program per thread and EVERY schedule of the model's atomic actions (the range check against the file length; try_lock; seek and read_exact on the shared handle "
                "under the lock, or open + seek + read_exact on a private handle when contended): C23_reads_linear (each completed read returned exactly the bytes, or the error, it returns alone; a "
                "thread's completed reads are a prefix of its sequential reads; full), C23_reads_linear_requests (instance for fixed (pos,len) lists), C23_no_deadlock (a thread with pending work "
-               "always has an enabled action; full) and C23_completes (a reader scheduled 4 x its number of sequential reads times has returned its sequential value whatever the others do; full), "
+               "always has an enabled action; full) and C23_completes (a reader scheduled as often as it needs actions alone - at most 4 x its number of sequential reads - has returned its sequential value whatever the others do; full), "
                "C23_refuted_without_lock (the same program on the shared handle without the lock has a 2-thread schedule returning wrong bytes and a spurious error). "
                "C23_queries_equal_partial: every reader that is a deterministic function of the bytes its reads return gives its sequential value under every schedule — PARTIAL with respect to the "
                "property text because the real query code is not translated into such a program and the model cannot exhibit kernel-level offset sharing between duplicated descriptors, short reads or "
